@@ -1501,9 +1501,74 @@ fn message_kinds(out: &mut Out) {
     }
 }
 
+/// `advance_epoch` at the top of the range (saturating), `queue_deltas(vec![])` (no message),
+/// `queue_deltas_broadcast(vec![])`, a router that is not selective
+fn state_corners(out: &mut Out) {
+    let config = ReplicationConfig { enabled: true, replica_id: 1, ..ReplicationConfig::default() };
+    let mut g = GossipState::new(config.clone());
+    g.epoch = u64::MAX - 1;
+    g.advance_epoch();
+    let a = g.epoch;
+    g.advance_epoch();
+    let b = g.epoch;
+    g.queue_deltas(vec![]);
+    g.queue_deltas_broadcast(vec![]);
+    let empty_calls_queue_nothing = g.outbound_queue.is_empty();
+    let (r, _) = make_router(3, 2, 8, 1, &[2, 3], false);
+    g.set_router(r);
+    let mut sh = ShardReplicaState::new(ReplicaId::new(1), ConsistencyLevel::Eventual);
+    g.queue_deltas(vec![sh.record_write("k".into(), SDS::from_str("v"), None)]);
+    let non_selective_router_broadcasts = g.outbound_queue.len() == 1 && g.outbound_queue[0].target.is_none() && !g.is_selective();
+    // the model: Gossip.GState.advanceEpoch saturates at u64Max; queueDeltas [] = identity; a router with selective = false broadcasts
+    if a != u64::MAX || b != u64::MAX || !empty_calls_queue_nothing || !non_selective_router_broadcasts {
+        out.violation("C06:msg:state-corner", "advance_epoch does not saturate at u64::MAX, or an empty queue_deltas queues a message, or a non-selective router does not broadcast — the model (Gossip.GState) says otherwise", json!({"epoch_after_one": a, "epoch_after_two": b, "empty_calls_queue_nothing": empty_calls_queue_nothing, "non_selective_router_broadcasts": non_selective_router_broadcasts}));
+    }
+    out.count("m:state-corners");
+}
+
+/// the coverage self-audit of C06 against the eleven classes (DESIGN.md §4 C06)
+pub fn audit() -> serde_json::Value {
+    json!([
+      {"class": 1, "topic": "entry path / variant never driven",
+       "covered": "message level: every GossipMessage variant, every GossipActor mailbox message, every pub fn of GossipState / GossipRouter / GossipManager / ShardReplicaState and the gossip side of ReplicatedShardedState are enumerated from the source the binary was built against and must be accounted for (C06:coverage:message-path-not-driven:*); real start_gossip_loop and start_gossip_loop_with_actor over loopback TCP; ReplicatedShardedState with both gossip backends, enabled on / off; a node's OWN deltas echoed back are really applied (the old harness skipped them to match a model that treated them as no-ops: the code has no origin check); node / actor restart with an empty state; the multi-key front end (MSET / MGET / EXISTS across shards); actor mailbox messages ExecuteReadonly / EvictExpired / DrainPendingDeltas (C08's table)",
+       "open": "GossipManager::start_server binds the fixed port 3001 + replica_id on 0.0.0.0 (another run may hold it) — its receive loop has the shape of server_persistent's handle_gossip_connection, transcribed by the model's recv; SyncRequest / SyncResponse are produced by no code; simulator/multi_node.rs (its own gossip_round / anti-entropy) is C18 / C20's"},
+      {"class": 2, "topic": "input alphabet",
+       "covered": "values: empty, binary (00 ff 0a), short; keys incl. non-ASCII; hash commands with 1..6 fields and repetitions; deltas of both replicated kinds; frames with 0..n deltas (empty collect, bursts of 100+)",
+       "open": "keys are Rust Strings (UTF-8 by type); counter / set CRDT kinds are not producible by the replicated actor (C07 covers their merges)"},
+      {"class": 3, "topic": "comparison at equality",
+       "covered": "stamp ties (equal Lamport time on two fresh nodes), outbound queue exactly AT MAX_OUTBOUND_QUEUE (nothing dropped) and one past it (the oldest dropped), outbox bursts of cap..cap+2, the peer-id arithmetic of the gossip loops for the replica id at every position (1, 2, 3 of 3), epoch saturation at u64::MAX, a ring with replication factor 1..n",
+       "open": "the 1 MiB frame limit of the receiver (msg_len > 1024*1024) is in the model (recv tooLarge) and its loss witness, not crossed on the real receiver (start_server is not driven)"},
+      {"class": 4, "topic": "configuration",
+       "covered": "ReplicationConfig: enabled on / off, replica_id 1..4, consistency_level Eventual / Causal, gossip_interval_ms (5 ms in the TCP scenarios), peers complete / one missing, replication_factor 1..n, partitioned_mode + selective_gossip on / off, virtual_nodes_per_physical 1 / 8 / 150; a router installed at construction, later (set_router), replaced at run time, non-selective",
+       "open": ""},
+      {"class": 5, "topic": "capacity thresholds",
+       "covered": "MAX_PENDING_DELTAS and MAX_OUTBOUND_QUEUE are read from the source (and compared with the compiled constant and the model's constants) and crossed by generated cases; the theorems quantify over the capacities",
+       "open": "NUM_SHARDS = 16 is fixed in the source (C08's node-level model takes it as a parameter)"},
+      {"class": 6, "topic": "fault kinds",
+       "covered": "a send that fails (refused connection, real TCP) is not retried; a target without address; a closed actor mailbox (handle fallbacks after Shutdown); frames never handed over / handed over twice / reordered; every loss cause has a Lean witness and a ledger entry compared step by step",
+       "open": "a serialisation failure of a GossipMessage cannot be provoked (serde_json on these types does not fail); partial TCP writes are below the model's send oracle"},
+      {"class": 7, "topic": "history shapes",
+       "covered": "restart with an empty state + own deltas back + write again (corpus + random, shard level and actor level), write before the own history is back (excluded by cause, counted), write-after-receive, duplicates, bursts between two drains, router / replication-factor change at run time, a writer outside the key's replica set, partial flushes",
+       "open": ""},
+      {"class": 8, "topic": "node-global state",
+       "covered": "one Lamport clock per shard shared by all its keys (keys chosen on one shard / on different shards of the 16), one outbound queue and one epoch per node shared by all shards, the outbox per shard",
+       "open": ""},
+      {"class": 9, "topic": "observations",
+       "covered": "full replication state of every node, served keyspace with PTTL, GET / EXISTS / HGETALL / TTL replies, queue contents (first / last entries and length), every frame put on the wire (destination, kind, source, target, epoch, delta ids), every loss with its cause and destination, per-key flags delivered / delivered-to-owners / kind / agree / agree-among-owners",
+       "open": "vector_clock and replication_factor are compared in the state dumps but carry no client-visible meaning"},
+      {"class": 10, "topic": "finding signatures",
+       "covered": "a divergence of a key of ONE kind whose registers re-use a stamp was absorbed by C06:cross-kind-order (compat = none was taken for 'mixed kinds'): now C06:rs-diverge:stamp-reused, a violation unless the history wrote before its own recovery (counted); the front-end findings carry the command in the signature",
+       "open": ""},
+      {"class": 11, "topic": "harness fragility",
+       "covered": "source files are read from the tree the binary was built against; a failed scan, an implausibly short scan, a loop that does not deliver its sentinel within 30 s, a capacity constant that differs from the model are violations; the peer-id arithmetic is observed on the real loop and cross-checked with the source text",
+       "open": ""}
+    ])
+}
+
 pub async fn part_m(out: &mut Out, rng: &mut Rng, n: u64) {
     let Some(caps) = coverage(out) else { return };
     message_kinds(out);
+    state_corners(out);
     let fixed = tcp_scenarios(out, &caps).await;
     outbound_boundary(out, &caps, fixed);
     for _ in 0..n {
